@@ -48,7 +48,8 @@ def varbind_specs():
     # relative OIDs against short / empty / long bases
     bases = [b"", b"\x2b", b"\x2b\x06", b"\x2b\x06\x01\x02\x01\x01\x03\x00", b"\x2b\x87\x67"]
     rels = [b"", b"\x05", b"\x01\x03", b"\x07\x28", b"\xff\xff", b"\x80", b"\x87\x67", b"\x01\x03\x06\x01\x02\x01\x01\x03\x00\x01",
-            b"\x06\x28\x01", b"\x02\x64", b"\xff"]
+            b"\x06\x28\x01", b"\x02\x64", b"\xff", b"\xff\xff\xff\xff\xff\x7f", b"\x05\x90\x80\x80\x80\x00", b"\x8f\xff\xff\xff\x7f",
+            b"\xff" * 9 + b"\x7f"]
     for bs in bases:
         for rl in rels:
             add("rel-%s-%s" % (bs.hex() or "e", rl.hex() or "e"),
